@@ -29,7 +29,7 @@ What is proved here:
 * `mirror_statement_list_roundtrip` — one level up, again for the mirror itself (`Parse.statementList`,
   `statementsOrEmpty`, `statement`, `ifStatement`, `whileStatement`, `repeatStatement`): the token list of every
   statement list built from assignments to named variables, IF … THEN … [ELSE …] END_IF, WHILE … DO … END_WHILE,
-  REPEAT … UNTIL … END_REPEAT, EXIT and RETURN — nested to any depth, bodies of any length, any `MX.S`
+  REPEAT … UNTIL … END_REPEAT, FOR … := … TO … [BY …] DO … END_FOR, EXIT and RETURN — nested to any depth, bodies of any length, any `MX.S`
   expression as condition or right-hand side — is read back as exactly the list of trees the grammar actions
   build: every statement, in order, each body under the statement it was written in (nothing dropped,
   duplicated, reordered or re-nested), with the fuel the driver really uses;
